@@ -19,7 +19,6 @@ import (
 
 	_ "github.com/mattn/go-sqlite3"
 	f_note "github.com/transparency-dev/formats/note"
-	"github.com/transparency-dev/merkle/rfc6962"
 	"github.com/transparency-dev/witness/internal/persistence"
 	"github.com/transparency-dev/witness/internal/persistence/inmemory"
 	psql "github.com/transparency-dev/witness/internal/persistence/sql"
@@ -28,6 +27,7 @@ import (
 	"github.com/transparency-dev/witness/internal/verif/kit/refwitness"
 	"github.com/transparency-dev/witness/internal/witness"
 	"github.com/transparency-dev/witness/monitoring"
+	"github.com/transparency-dev/witness/omniwitness"
 	"golang.org/x/mod/sumdb/note"
 	"google.golang.org/grpc/codes"
 	"google.golang.org/grpc/status"
@@ -129,17 +129,26 @@ func NewWitKeys(r *rand.Rand, schemes []bool, pair bool) (*WitKeys, error) {
 	return wk, nil
 }
 
-// KnownLogs builds the witness configuration for a universe the way
-// omniwitness.LogConfig.AsLogMap does (verifier from the vkey string,
-// RFC 6962 hasher), keyed by each log's ID.
+// KnownLogs builds the witness configuration for a universe through the real
+// omniwitness.LogConfig.AsLogMap (verifier from the vkey string, RFC 6962 hasher,
+// collision check), then files each entry under the universe's ID for that log
+// (normally the same derived ID; hand-made IDs are re-keyed).
 func KnownLogs(u *gen.Universe) (map[string]witness.LogInfo, error) {
+	var cfg omniwitness.LogConfig
+	for _, l := range u.Logs {
+		cfg.Logs = append(cfg.Logs, omniwitness.LogInfo{Origin: l.Origin, PublicKey: l.Key.Vkey(), URL: "http://unused.invalid/", Feeder: omniwitness.None})
+	}
+	byDerived, err := cfg.AsLogMap()
+	if err != nil {
+		return nil, err
+	}
 	m := map[string]witness.LogInfo{}
 	for _, l := range u.Logs {
-		v, err := f_note.NewVerifier(l.Key.Vkey())
-		if err != nil {
-			return nil, err
+		info, ok := byDerived[refnote.LogID(l.Origin)]
+		if !ok {
+			return nil, fmt.Errorf("AsLogMap has no entry under the derived ID of origin %q", l.Origin)
 		}
-		m[l.ID] = witness.LogInfo{SigV: v, Origin: l.Origin, Hasher: rfc6962.DefaultHasher}
+		m[l.ID] = info
 	}
 	return m, nil
 }
